@@ -28,7 +28,7 @@ class Contract:
     def __init__(self, target, self_cls=None, props=(), params=None, result=None, requires=None,
                  ensures=None, raises=None, must_raise=None, modifies=None, loops=None, inline=False,
                  pure=False, raise_frame_empty=False, decreases=None, note="", axioms=None,
-                 verify=True, name=None, fields=None, result_fn=None, max_paths=400, primary=True, call_checks=None, defaults=None, inline_calls=(), tags=(), virtual=()):
+                 verify=True, name=None, fields=None, result_fn=None, max_paths=400, primary=True, call_checks=None, defaults=None, inline_calls=(), tags=(), virtual=(), dropped_attrs=()):
         self.target = target
         self.self_cls = self_cls
         self.props = list(props)
@@ -53,6 +53,7 @@ class Contract:
         self.max_paths = max_paths
         self.defaults = defaults or {}  # default values (SV) of interface method parameters
         self.call_checks = call_checks or {}  # callee short name -> fn(ctx, argmap) -> z3 Bool, obligation at each call site
+        self.dropped_attrs = set(dropped_attrs)  # attributes of container objects (maps / sequences) that the container model does not carry: assignments are dropped (counted in dropped_nodes)
         self.virtual = set(virtual)  # methods of self that are dispatched through their interface contract (template-method hooks overridden by subclasses)
         self.tags = set(tags)  # free-form switches read by model hooks (e.g. how payload values are interpreted in this unit)
         self.inline_calls = set(inline_calls)  # qualified names whose body is executed in this unit although a (more abstract) contract exists
